@@ -90,6 +90,11 @@ CLAIMED = {
         note="Bounded as stated; probabilities abstracted to three classes for the reachability (DRIFT) check; the task is run with a byte tokenizer with one prefix and one suffix token.",
         technique="TLA+ spec of coin-wise corruption model-checked with TLC; TLC-enumerated texts/probabilities/seeds replayed through the real preprocessing and task; records validated by a TLC trace spec",
         ref="6 C14"),
+    "C20": dict(
+        text="spec/Dict.tla specifies token extraction per mode (word parts = maximal letter runs inside whitespace words; characters; character 3-grams with <bow>/<eow>), exact counts over the first max_sequences lines, the top-max_size predicate (no kept entry less frequent than an omitted one; negative = unlimited), freq_sum and the closest entry (minimal EditDist!Dist, then most frequent); CountReduce.tla model-checks the counting workers / channel / reducer for every schedule (exactly-once, termination, incl. the rendezvous channel of num_threads = 0). Binding: TLC-enumerated and random small corpora x max_size x max_sequences x modes are run through the real Dictionary::create with 0/1/2/4 threads, saved and loaded, and queried; Trace_Dict validates every record against the spec.",
+        note="Bounded: <=2/3 lines from a 9-line pool exhaustively, random <=8 lines of <=12 characters. Restricted alphabet (cleaning / NFKC / regex word parts unambiguous). Schedules of the real counting threads are not controlled (result validated per thread count).",
+        technique="TLA+ spec of counts / top-k / closest plus a model-checked worker-reducer protocol; TLC-enumerated corpora replayed with several thread counts; results validated by a TLC trace spec",
+        ref="6 C20"),
     "C12": dict(
         text="TLC explores the alignment machine of spec/EditDist.tla for all text pairs up to length 3 over a whitespace and two other symbols and all flag combinations and checks in every state that the row-DP of the mechanism layer is the least alignment cost (Bellman conditions), termination and the range/prefix consequences; the spec is bound to the code by replaying the TLC-enumerated input space (all pairs up to length 3/4 x flags x 4 concretisations incl. multi-byte and grapheme clusters) and seeded random pairs up to 14 characters through distance/distances/prefix_distance/operations and validating every recorded call with Trace_EditDist (exact distance, exact rational for the normalised value, script is an Align behaviour of cost D).",
         note="Bounded: MC up to length 3, replay up to length 4, random up to 14. Trusted: unicode-segmentation and char::is_whitespace for the view; float vs rational tolerance 1e-6; TLC.",
